@@ -346,6 +346,63 @@ def checkAcceptRows (j : Json) : R (Option (Nat × String)) := do
     | _ => throw "bad acceptck row"
   return none
 
+/-! ### forwarded writes (`Node/Forward.lean`): values of struct parameters travel as `d␂key␃value␂key␃value…` (keys sorted),
+so that the member is put into / taken out of the struct HERE -/
+
+open Frappy.Node.Forward in
+def fsep : String := "\x02"
+def kvsep : String := "\x03"
+
+def structParts (s : String) : Option (List (String × String)) :=
+  match s.splitOn fsep with
+  | "d" :: rest => some (rest.map (fun seg => match seg.splitOn kvsep with
+      | [k, v] => (k, v)
+      | _ => (seg, "MALFORMED")))
+  | _ => none
+
+def structStr (l : List (String × String)) : String :=
+  fsep.intercalate ("d" :: l.map (fun kv => kv.1 ++ kvsep ++ kv.2))
+
+def fwdOps (closest : Table VV) : Forward.ValOps VV where
+  get := fun s k => (structParts s).bind (fun l => (l.find? (fun kv => kv.1 == k)).map (·.2))
+  set := fun s k x => match structParts s with
+    | some l => structStr (if l.any (fun kv => kv.1 == k) then l.map (fun kv => if kv.1 == k then (k, x) else kv) else l ++ [(k, x)])
+    | none => "NOT-A-STRUCT " ++ s
+  closest := fun m a v => (closest.get (mkKey [m, a, v])).getD ("ORACLE-MISS closest " ++ v)
+
+def parseBody (j : Json) : R Forward.Body :=
+  match j with
+  | .str "absent" => pure .absent
+  | .str "driver" => pure .driver
+  | .arr a => match a.toList with
+    | [.str "toStruct", .str s, .str k] => pure (.toStruct s k)
+    | [.str "toIndex", .str i] => pure (.toIndex i)
+    | [.str "toMembers", .arr ms] => do
+      return .toMembers (← ms.toList.mapM (fun e => do
+        match ← arr e with
+        | [.str k, .str a] => return (k, a)
+        | _ => throw "bad member"))
+    | _ => throw "bad body"
+  | _ => throw "bad body"
+
+/-- rows `[module, attribute, body]`; an attribute not listed has no `write_` method -/
+def parseBodies (j : Json) : R (String → String → Forward.Body) := do
+  let rows ← (← arr j).mapM (fun row => do
+    match ← arr row with
+    | [.str m, .str a, b] => return (mkKey [m, a], ← parseBody b)
+    | _ => throw "bad body row")
+  return fun m a => ((rows.find? (fun e => e.1 == mkKey [m, a])).map (·.2)).getD .absent
+
+def fwdFuel : Nat := 8
+
+def parseObs (n : Node JJ VV) (o : Json) : R (Node JJ VV × Obs JJ VV) := do
+  let before ← parseCacheRows (← fld o "before")
+  let after ← parseCacheRows (← fld o "after")
+  let nb := withCache n before
+  let na := withCache n after
+  return (nb, ⟨← parseReply (← fld o "reply"), ← (← fldArr o "calls").mapM parseCall,
+    ← (← fldArr o "emits").mapM parseMsg, stripIdent (cache nb), stripIdent (cache na)⟩)
+
 def handle (j : Json) : R Json := do
   let k ← fldStr j "k"
   match k with
@@ -456,6 +513,58 @@ def handle (j : Json) : R Json := do
         (s.calls.zip observed).all (fun (m, o) => m.thread == o.1 && PVal.same m.value o.2.2.2 && PVal.same m.current o.2.2.1)
       return Json.mkObj [("ok", Json.bool true), ("same", Json.bool same), ("calls", jarr (verdicts.map Json.bool)),
         ("expected", jarr expected), ("final", pvalToJson s.cur)]
+  | "fwd" =>
+    -- change requests on a module with generated (forwarding) write methods: the model, on the cache the implementation had
+    let t ← parseTables (← fld j "oracle")
+    let closest ← parseTable (← fld j "oracle") "closest" 3 keyStrs (one (·.getStr?))
+    let n ← parseNode t (← fld j "node")
+    let bodies ← parseBodies (← fld j "bodies")
+    let outs ← (← fldArr j "steps").mapM (fun s => do
+      let (nb, _) ← parseObs n (← fld s "obs")
+      match ← parseReq (← fld s "req") with
+      | .change spec p =>
+        let o := Forward.handleChangeFwd predef fwdFuel (mkEnv t (← parseDrv (← fld s "drv"))) (fwdOps closest) bodies nb spec p
+        return Json.mkObj [("calls", jarr (o.calls.map callJson)),
+          ("err", jopt (fun e : Node.Err => Json.str (nameOfCls e.cls)) o.err), ("exhausted", Json.bool o.exhausted)]
+      | _ => return Json.null)
+    return Json.mkObj [("outs", jarr outs), ("wf", Json.bool (wfB predef n))]
+  | "judge_fwd" =>
+    -- the same requests as the implementation served them, against the specification of the write path
+    let t ← parseTables (← fld j "oracle")
+    let closest ← parseTable (← fld j "oracle") "closest" 3 keyStrs (one (·.getStr?))
+    let n ← parseNode t (← fld j "node")
+    let bodies ← parseBodies (← fld j "bodies")
+    let mut i := 0
+    let mut bad : Option (Nat × String × Option (String × Nat)) := none
+    for s in (← fldArr j "steps") do
+      let (nb, obs) ← parseObs n (← fld s "obs")
+      match ← parseReq (← fld s "req") with
+      | .change spec p' =>
+        let vd := forwardVerdict predef fwdFuel (mkEnv t .none) (fwdOps closest) bodies nb spec p'
+        if bad.isNone && !(forwardExchangeOKB vd obs) then
+          -- for the report: which parameter of the path objects, and how many driver-written write methods come before it
+          let where_ : Option (String × Nat) := match target "target" spec with
+            | some (m, a) => match lookupParam predef nb m a with
+              | .ok (mod, p) => match p.dt.accept p' (some p.entry.value) with
+                | .ok v =>
+                  let c : Forward.Ctx JJ VV := ⟨mkEnv t .none, fwdOps closest, mod, bodies mod.name⟩
+                  let l := pathList fwdFuel c p.attr v
+                  match l.findIdx? (fun av => (visitVerdict c av.1 av.2).isSome) with
+                  | some k => some ((l.getD k ("?", "?")).1, ((l.take k).filter (fun av => c.body av.1 == .driver)).length)
+                  | none => none
+                | .error _ => none
+              | .error _ => none
+            | none => none
+          let why := match vd with
+            | .refuse c => "refuse " ++ nameOfCls c ++ (match where_ with
+                | some (a, k) => s!" (the objection comes from {a}, the {k + 1}. parameter with a driver-written write method on the path would be next)"
+                | none => "")
+            | .allow calls => "allow, driver calls " ++ (jarr (calls.map callJson)).compress
+          bad := some (i, why, where_)
+      | _ => pure ()
+      i := i + 1
+    return Json.mkObj [("bad", jopt (fun b : Nat × String × Option (String × Nat) =>
+      jarr [jnat b.1, Json.str b.2.1, jopt (fun w : String × Nat => jarr [Json.str w.1, jnat w.2]) b.2.2]) bad)]
   | _ => throw s!"C04: unknown verb {k}"
 
 end Frappy.Drive.C04
